@@ -192,6 +192,35 @@ def build_inputs(chk, n_pairs, n_triples):
                 inputs.append(("diff", {"a": a, "d": diff_notebooks(a, b)}))
     for name, a, b, info in pairs[:max(3, n_pairs // 4)]:
         inputs.append(("notebook", {"nb": b}))
+    # a kernel language that the syntax highlighter knows by its plain name (language_info.name only: python, julia)
+    for lang in ("python", "julia"):
+        nb = copy.deepcopy(basenb)
+        nb.metadata["language_info"] = {"name": lang}
+        c = nbformat.v4.new_code_cell("import os\nx = [1, 2]\nprint(x)  # show\n")
+        m = nbformat.v4.new_markdown_cell("# title\nsome *text* here\n")
+        c.pop("id", None)
+        m.pop("id", None)
+        nb.cells = [c, m]
+        if concretize.is_valid(nb):
+            inputs.append(("notebook", {"nb": nb}))
+    # free-form metadata whose keys carry the names of notebook sections (lists of plain strings under "cells", "outputs")
+    a = copy.deepcopy(basenb)
+    c = nbformat.v4.new_code_cell("x = 1\n")
+    c.pop("id", None)
+    c.metadata["linked"] = {"outputs": ["a", "b"], "cells": ["x"]}
+    a.cells = [c]
+    a.metadata["report"] = {"cells": ["intro", "results"], "outputs": ["fig1"], "attachments": {"k": "v"}}
+    b = copy.deepcopy(a)
+    b.metadata["report"] = {"cells": ["intro", "methods", "results"], "outputs": [], "attachments": {"k": "w", "n": "v"}}
+    b.cells[0].metadata["linked"] = {"outputs": ["b"], "cells": ["x", "y"]}
+    r2 = copy.deepcopy(a)
+    r2.metadata["report"]["cells"] = ["results", "appendix"]
+    r2.cells[0].metadata["linked"]["outputs"] = ["a", "c"]
+    if concretize.is_valid(a) and concretize.is_valid(b) and concretize.is_valid(r2):
+        inputs.append(("diff", {"a": a, "d": diff_notebooks(a, b), "b": b}))
+        inputs.append(("diff", {"a": b, "d": diff_notebooks(b, a), "b": a}))
+        inputs.append(("decisions", {"base": a, "D": decide_notebook_merge(a, b, r2, mergedrv.strategy_args("mergetool")),
+                                     "local": b, "remote": r2}))
     triples = corp.triples(n_enum=n_triples, n_random=n_triples // 2, salt="c16")
     for name, b, l, r, info in triples:
         try:
